@@ -91,7 +91,7 @@ def run(prop, tier, seed, out):
             hist = scr.path("conc.ndjson")
             rp = scr.path("crep.json")
             t0 = time.time()
-            p, races = run_race(vh, ["conc-record", "-seed", str(seed), "-n", "40" if quick else "160", "-hist", hist, "-out", rp], scr, "c04")
+            p, races = run_race(vh, ["conc-record", "-seed", str(seed), "-n", "40" if quick else "400", "-hist", hist, "-out", rp], scr, "c04")
             if p.returncode != 0:
                 if "panic" in p.stderr or "fatal error" in p.stderr:
                     out.violation("the process died during concurrent Broker use: " + p.stderr[:400], {"stderr": p.stderr[-4000:]})
